@@ -40,7 +40,15 @@ Proof. exact expected_queue_positions. Qed.
 Theorem C11_in_order : forall name anns idx vals,
   StronglySorted (fun a b => c_idx a < c_idx b) (expected_queue name idx anns vals).
 Proof. exact expected_queue_sorted. Qed.
+(* the entry point DLTypeContext.add itself: without annotations nothing is queued; with annotations the call is add_loop from position 0 *)
+Theorem C11_context_add : forall name vals anns q,
+  (exists q', ctx_add name vals (Some anns) q = DOk q') <-> (length anns = length vals /\ all_admissible anns vals = true).
+Proof. intros. unfold ctx_add. apply add_loop_ok_iff. Qed.
+Theorem C11_context_add_result : forall name vals anns q, length anns = length vals -> all_admissible anns vals = true ->
+  ctx_add name vals (Some anns) q = DOk (q ++ expected_queue name 0 anns vals).
+Proof. intros. unfold ctx_add. apply add_loop_complete; assumption. Qed.
 Redirect "C11.assumptions.1" Print Assumptions C11_elementwise.
+Redirect "C11.assumptions.5" Print Assumptions C11_context_add_result.
 Redirect "C11.assumptions.2" Print Assumptions C11_add_succeeds_iff.
 Redirect "C11.assumptions.3" Print Assumptions C11_same_position.
 Redirect "C11.assumptions.4" Print Assumptions C11_in_order.
